@@ -18,7 +18,7 @@ def plans(c, maxf):
 
 def declarations(c, tier, with_encoded_as=True, nrand=None, for_codec=True):
     thorough = tier == "thorough"
-    ps = plans(c, 2)
+    ps = plans(c, 4 if thorough else 2)
     decls = []
     for p in ps:
         if not with_encoded_as and "encoded_as" in p["feats"]: continue
